@@ -95,6 +95,14 @@ func (c *Ctx) intEval(e ast.Expr, env map[string]int64) (int64, error) {
 			return a << uint(b), nil
 		case token.SHR:
 			return a >> uint(b), nil
+		case token.QUO:
+			if b != 0 {
+				return a / b, nil
+			}
+		case token.REM:
+			if b != 0 {
+				return a % b, nil
+			}
 		}
 	}
 	return 0, fmt.Errorf("cannot fold %s", c.Src(e))
